@@ -5,11 +5,16 @@ A reader of another schema version reads by tag. The theorems are corollaries of
 theorems, which hold for ARBITRARY surrounding fields `l`, `r` (any other tags, any order):
 fields common to both versions read back unchanged, unknown fields disturb nothing, absent fields
 read as zero with presence false.
-PARTIAL: `copy_preserves` (Copy/Merge through a writer that wrote a subset of the fields keeps the
-other fields' values) is checked by the differential stream `merge-preserves-unknown` and the Go
-round-trip oracle, not yet by a theorem.
+`copy_preserves`: a writer that writes ANY fields of its own (any value trees, any tags) and then
+Copies/Merges from a well-formed source message — the writer model's `copyMsg` loop over the source
+table: TagAt, HasField on the destination, FieldAt, raw field write — answers `ok` to every call and
+builds a message in which every source field with a tag the writer did not write (known to the
+writer's schema or not) reads back with exactly its source value, and every field the writer wrote
+reads back as written (Lemmas/WriterCopy.lean). The stream `merge-preserves-unknown` runs the same
+programs on the Go writer.
 -/
 import SpecVerif.Props.C01
+import SpecVerif.Lemmas.WriterCopy
 namespace SpecVerif.C16
 open SpecVerif Pinned
 
@@ -42,6 +47,38 @@ theorem order_irrelevant (p : Bytes) (fs fs' : List (Nat × Bytes)) (wf : MsgWF 
   obtain ⟨l', r', rfl⟩ := List.append_of_mem h'
   obtain ⟨M, M', h1, h2, h3, h4, _, _⟩ := common_field_unchanged p p tag v hv l r l' r' wf wf'
   exact ⟨M, M', h1, h2, by rw [h3, h4]⟩
+
+/-- Copy/Merge through a writer that knows only some of the fields preserves the others -/
+theorem copy_preserves (ws : Writer.Flds) (p : Bytes) (fs : List (Nat × Bytes)) (wf : MsgWF fs)
+    (hd : ∀ f ∈ fs, Delim f.2) (wfw : MsgWF ws.encs) (hdw : ∀ f ∈ ws.encs, Delim f.2)
+    (hsz : (((ws.encs ++ Writer.copiedOf (ws.encs.map (·.1)) fs).map (·.2)).flatten).length +
+      6 * (ws.encs ++ Writer.copiedOf (ws.encs.map (·.1)) fs).length < 2 ^ 32)
+    (buf q : Bytes) :
+    ∃ b, Writer.BuiltLast (Writer.run (Writer.copyProg ws (p ++ encMsg fs)) buf) b ∧
+      (∀ tag v, (tag, v) ∈ fs → tag ∉ ws.encs.map (·.1) →
+        ∃ M, openMessageErr (q ++ b) = .ok M ∧ M.hasField tag = .ok true ∧ M.field tag = .ok v) ∧
+      (∀ tag v, (tag, v) ∈ ws.encs →
+        ∃ M, openMessageErr (q ++ b) = .ok M ∧ M.hasField tag = .ok true ∧ M.field tag = .ok v) := by
+  have hwf := Writer.copy_result_wf ws.encs fs wfw wf hsz
+  refine ⟨_, Writer.run_copyProg ws p fs wf hd buf, ?_, ?_⟩
+  · intro tag v hmem habs
+    have hc : (tag, v) ∈ Writer.copiedOf (ws.encs.map (·.1)) fs :=
+      (Writer.copiedOf_mem _ fs wf (tag, v)).mpr ⟨hmem, habs⟩
+    have : (tag, v) ∈ ws.encs ++ Writer.copiedOf (ws.encs.map (·.1)) fs := List.mem_append_right _ hc
+    obtain ⟨l, r, hsplit⟩ := List.append_of_mem this
+    rw [hsplit] at hwf ⊢
+    obtain ⟨M, h1, _, h2, h3⟩ := C01.msg_field_found q l tag v r hwf (hd (tag, v) hmem)
+    exact ⟨M, h1, h2, h3⟩
+  · intro tag v hmem
+    have : (tag, v) ∈ ws.encs ++ Writer.copiedOf (ws.encs.map (·.1)) fs := List.mem_append_left _ hmem
+    obtain ⟨l, r, hsplit⟩ := List.append_of_mem this
+    rw [hsplit] at hwf ⊢
+    obtain ⟨M, h1, _, h2, h3⟩ := C01.msg_field_found q l tag v r hwf (hdw (tag, v) hmem)
+    exact ⟨M, h1, h2, h3⟩
+
+/-- non-vacuity: the writer knows tag 1 only, the source has tags 1 and 300 — tag 300 is copied,
+tag 1 is not -/
+example : Writer.copiedOf [1] [(300, encByte 7), (1, encBool true)] = [(300, encByte 7)] := by decide
 
 example : MsgWF [(1, encBool true), (300, encByte 7)] :=
   ⟨by decide, by intro f hf; simp at hf; rcases hf with h | h <;> subst h <;> decide, by decide⟩
